@@ -589,6 +589,8 @@ fn try_spawn_input_processing<'scope>(
                 && let Err(error) =
                     process_input_section_group(resources, input_section, scope, &mut reservation)
             {
+                #[cfg(feature = "verif")]
+                crate::verif_api::errlog::arrive("strmerge", &error);
                 let _ = resources.errors.push(error);
             }
 
@@ -908,6 +910,8 @@ fn process_input_section_group<'data, 'offsets, 'scope>(
         if let StringsSlot::WaitingForStrings(bucket) = prev_slot {
             scope.spawn(|scope| {
                 if let Err(error) = work_with_bucket(resources, bucket, scope) {
+                    #[cfg(feature = "verif")]
+                    crate::verif_api::errlog::arrive("strmerge", &error);
                     let _ = resources.errors.push(error);
                 }
             });
